@@ -61,6 +61,7 @@ type CStep struct {
 	M      string   `json:"m,omitempty"`
 	Args   []string `json:"args,omitempty"`  // typed: "s:abc" "u:12" "b:hex" "B:true" "i:3" "f:1.5"
 	Role   string   `json:"role,omitempty"`  // outsider | chainadmin | govadmin | node
+	GJ     bool     `json:"gj,omitempty"`    // ibtp receipt: carries a (meaningless) group descriptor although its request was one-to-one
 	Local  bool     `json:"local,omitempty"` // LocalList bit (signature not re-verified)
 	BadSig bool     `json:"badsig,omitempty"`
 }
@@ -272,6 +273,9 @@ func (g *gen) ibtp() CStep {
 	}
 	if r.Chance(0.07) {
 		s.Ghost = true
+	}
+	if s.Kind != "req" && r.Chance(0.05) {
+		s.GJ = true
 	}
 	return s
 }
